@@ -98,7 +98,7 @@ def family_free(f, docs=1, width=3, depth=2, pool=2):
     return out
 
 # ---------------------------------------------------------------------------------------------- trees with symbolic names for C14 / C04
-def family_names(f, shape='chain', names=('a', 'b'), anames=None, docs=1, text_siblings=False):
+def family_names(f, shape='chain', names=('a', 'b'), anames=None, docs=1, text_siblings=False, fix_n2=None):
     """skeletons whose *names* are the subject: every element name symbolic over `names`.
        shape 'three_branches': r > (N1 > N4), (N2 > (N5, N3 > N6)) ; 'two_parents': r > (N1 > N3, N2 > N4), N5 ; 'deep': r > N1 > N2 > N3 and r > N4 ; 'wide': r > N1, N2, N3 (each with one optional attribute)"""
     out = []
@@ -130,7 +130,7 @@ def family_names(f, shape='chain', names=('a', 'b'), anames=None, docs=1, text_s
         elif shape == 'deep_pair':
             root.content = [el('n1', [el('n3', [el('n5')])], fixed='a'), el('n2', [el('n4', [el('n6')])], fixed='b')]
         elif shape == 'three_branches':
-            root.content = [el('n1', [el('n4')]), el('n2', [el('n5'), el('n3', [el('n6')])])]
+            root.content = [el('n1', [el('n4')]), el('n2', [el('n5'), el('n3', [el('n6')])], fixed=fix_n2)]
         elif shape == 'single':
             root.content = [el('n1')]
         elif shape == 'single_attr':
